@@ -59,3 +59,26 @@ package ast
 //@   opaque
 //@ func Node.End
 //@   opaque
+
+// ---- extents (C04) ----
+//
+// A list of and-or commands ends where its last pipeline ends: a trailing
+// separator ("&", ";") is not part of it, so that children lie inside
+// their parents and the separator position follows the node.
+//@ func (*AndOrList).End
+//@   site LAST = call ast.(*AndOr).End
+//@   site FIRST = call ast.(*Pipeline).End
+//@   ensures[C04] ends-with-its-last-pipeline: len(c.List) != 0 ==> site(LAST) && result == siteret(LAST)
+//@   ensures[C04] ends-with-its-only-pipeline: len(c.List) == 0 && c.Pipeline != nil ==> site(FIRST) && result == siteret(FIRST)
+
+// A literal ends at or after where it starts, and on the same line one
+// column per character.
+//@ func (*Lit).End
+//@   loop "for _, r := range w.Value" invariant[C04] line > w.ValuePos.line || (line == w.ValuePos.line && col >= w.ValuePos.col)
+//@   ensures[C04] not-before-its-start: result.line > w.ValuePos.line || (result.line == w.ValuePos.line && result.col >= w.ValuePos.col)
+//@ func (*Lit).Pos
+//@   ensures[C04] result == w.ValuePos
+//@ func (*Quote).Pos
+//@   ensures[C04] result == w.TokPos
+//@ func (*Comment).Pos
+//@   ensures[C04] points-at-its-hash: result == c.Hash
